@@ -124,6 +124,19 @@ PROPS['C20'] = {
     'level_note': K_NOTE, 'technique': K_TECH,
 }
 
+PROPS['C05'] = {
+    'level': 'exploration', 'budget': {'quick': 70, 'thorough': 1200},
+    'parts': [{'sim': 'transfer', 'share': 3, 'env': {'VERIF_ORACLES': 'C05,C01'}}, {'sim': 'dial', 'share': 1, 'env': {'VERIF_ORACLES': 'C05'}}],
+    'rule': 'every datagram of whole connections (plain and spec-driven clients, QUIC v1 and v2, all three cipher suites as negotiated, connection-ID lengths 0-20, key-update intervals 3-40 packets, Retry) '
+            'under loss/duplication/reordering/corruption/truncation must open under keys derived independently by the wiretap (RFC 9001/9369 salts and labels, secrets from the TLS key log), with strictly increasing '
+            'packet numbers, a packet-number encoding decodable from what the sender knows to be acknowledged, key updates only when allowed; corrupted packets must never yield different data (C01 data oracle); '
+            'non-trivial = a fault fired; distinct = distinct abstract wire traces',
+    'real_vs_stub': 'real: both endpoints incl. handshake package; independent re-implementation: wiretap packet protection; stub: network',
+    'assumptions': ['0-RTT packet payloads are not observable (no early secret in the key log)', 'exhaustive enumeration of DecodePacketNumber over small windows is input enumeration and not part of this check'],
+    'level_text': 'seeded search over whole-connection executions; an independent decoder opens every packet and checks numbering, encoding length and key-update discipline; tampering is covered through the data oracle',
+    'level_note': W_NOTE, 'technique': W_TECH,
+}
+
 NOT_APPLICABLE = {
     'C08': 'pure functions of a byte string / value (quantifier: inputs only): no schedule, clock, fault or interleaving for a simulator to control; deciding it is input generation (fuzzing), a different technique - DESIGN.md section 5',
     'C19': 'predicate over field lists and http.Header values (quantifier: inputs only): no schedule, clock, fault or interleaving - DESIGN.md section 5',
